@@ -1,7 +1,11 @@
 """Reference rendering of abstract rows for RowSem (Flow/RowSem.v): the expected action
 payloads and the initial decision of each row type, written from the RapidPro flow
 specification and the sheet documentation (trusted, small), and the S-expression encoding
-of rows."""
+of rows.
+
+Rows are encoded with ALL their edge entries, the blank padding entries of a rectangular sheet included (callers pass
+sheetgen.written_rows): reading them is RowSem's business (read_row: an entry after the first that is blank throughout
+is not an edge, in a row of any type; a has_group test names its group in a row of any type)."""
 import json
 
 from common import enc_str
